@@ -203,7 +203,10 @@ TableClose(f, n, c) ==
 
 \* CommitFamilyEditLog: the record (with the next file number) is appended and synced, the new
 \* version becomes current; applying the next-file-number entry moves the counters
-Commit(r, newcontent) ==
+\* (CommitOn: base = the version the edit is applied to.  The code takes it INSIDE the version-set lock, after the
+\* record is persisted, so it is the current version: Commit.  A base read earlier is stale as soon as another
+\* commit of the family gets in between -- the concurrency instance MCKVReaders has a switch for that order.)
+CommitOn(base, r, newcontent) ==
   /\ phase = "ready" /\ r.fam \in fams
   /\ r.nfn = (IF NoNextFileNumberLog THEN 0 ELSE nfn)
   \* a file enters a version only when its table is closed (or it already was in the version: move)
@@ -212,11 +215,13 @@ Commit(r, newcontent) ==
                             /\ \E t \in tables : t.fam = r.fam /\ t.num = x[2] /\ t.st = "complete")
   /\ r.dels \subseteq ver[r.fam].files
   /\ manifests' = [manifests EXCEPT ![openMan] = Append(@, r)]
-  /\ ver' = [ver EXCEPT ![r.fam] = ApplyV(@, r)]
+  /\ ver' = [ver EXCEPT ![r.fam] = ApplyV(base, r)]
   /\ committed' = [committed EXCEPT ![r.fam] = ApplyV(@, r)]
   /\ ccontent' = [ccontent EXCEPT ![r.fam] = @ \cup newcontent]
   /\ IF r.nfn > 0 THEN mfn' = r.nfn /\ nfn' = r.nfn + 1 ELSE UNCHANGED <<mfn, nfn>>
   /\ UNCHANGED <<optfams, current, currentTmp, tables, phase, fams, openMan, pending, snapTodo, snaps>>
+
+Commit(r, newcontent) == CommitOn(IF r.fam \in DOMAIN ver THEN ver[r.fam] ELSE EmptyV, r, newcontent)
 
 \* flusher.Commit / cleanupCompaction: the outputs stop being pending
 Unpend(f, n) ==
